@@ -787,7 +787,7 @@ func c04InCore(l []*c04Item, ctx int) bool {
 				return false
 			}
 		case c04KDecl:
-			if ctx == 1 && it.d != c04DParam || ctx == 0 && (it.d == c04DParam || it.d == c04DCatch) {
+			if ctx == 1 && it.d != c04DParam || ctx == 2 && it.d != c04DCatch || ctx == 0 && (it.d == c04DParam || it.d == c04DCatch) {
 				return false
 			}
 		case c04KBlock:
@@ -798,7 +798,28 @@ func c04InCore(l []*c04Item, ctx int) bool {
 			if ctx != 0 || it.nm >= 0 || !c04InCore(it.a, 1) || !c04InCore(it.b, 0) {
 				return false
 			}
+		case c04KArrow:
+			if ctx != 0 || !c04InCore(it.a, 1) || !c04InCore(it.b, 0) {
+				return false
+			}
+		case c04KCatch:
+			if ctx != 0 || !c04InCore(it.a, 2) || !c04InCore(it.b, 0) || c04Intersects(c04HeadNames(it.a), c04VarNames(it.b)) {
+				return false
+			}
 		default:
+			return false
+		}
+	}
+	return true
+}
+
+// c04InCoreOld: no arrow, no catch (to steer the generator towards the newer part of the fragment)
+func c04InCoreOld(l []*c04Item) bool {
+	for _, it := range l {
+		if it.kind == c04KArrow || it.kind == c04KCatch {
+			return false
+		}
+		if !c04InCoreOld(it.a) || !c04InCoreOld(it.b) {
 			return false
 		}
 	}
@@ -837,8 +858,16 @@ var c04ScopeE2EAMModel = &Model{
 			}
 		})
 		for i := 0; i < n; i++ {
-			l := c04GenProgram(r, 3+i%40, true)
+			l := c04GenProgram(r, 3+i%40, i%2 == 0)
 			if c04InCore(l, 0) {
+				emit(c04E2eCase("scope_e2e_am", l, "random: "))
+			}
+		}
+		// the fragment with arrows and catch clauses: generate until enough programs qualify
+		for i, got := 0, 0; i < 20*n && got < n/2; i++ {
+			l := c04GenProgram(r, 3+i%25, false)
+			if c04InCore(l, 0) && !c04InCoreOld(l) {
+				got++
 				emit(c04E2eCase("scope_e2e_am", l, "random: "))
 			}
 		}
